@@ -26,7 +26,7 @@ class C10(object):
             'condition, or a rejection case')
     assumptions = ['steady-state initialisation off', "initial conditions are spelled X(0) as the model emits them",
                    'a horizon assigned to the solver after ParseString is not "the horizon" (picked up on next parse)']
-    required_counters = ('length.judged', 'exo.judged', 'ic.judged', 'ic.zero_valued.judged', 'model.horizon_chosen_after_exogenous_paths', 'lag.judged', 'time.judged', 'reject.judged',
+    required_counters = ('length.judged', 'exo.judged', 'ic.judged', 'ic.zero_valued.judged', 'model.horizon_chosen_after_exogenous_paths', 'model.declared_through_sector_objects', 'lag.judged', 'time.judged', 'reject.judged',
                          'model.judged', 'solver_reused.cases', 'ic_on_default_time.judged',
                          'solver_horizon_overrides_line.cases', 'horizon_assigned_after_parse.cases',
                          'exo_on_parameter.judged')
@@ -328,15 +328,31 @@ class C10(object):
                'str_expr': '[%r]*%d + %r' % (g[0], 1, g[1:])}[case['form']]
         if case['form'] == 'str_expr':
             pass
-        mod.AddExogenous('GOV', 'DEM_GOOD', val)
+        via_sector = (len(g) + T) % 2 == 1      # the same declarations through the sector objects instead of the model
+        cty = b.Country
+
+        def add_exo(sec, var, value):
+            if via_sector:
+                cty[sec].SetExogenous(var, value)
+            else:
+                mod.AddExogenous(sec, var, value)
+
+        def add_ic(sec, var, value):
+            if via_sector:
+                cty[sec].AddInitialCondition(var, value)
+            else:
+                mod.AddInitialCondition(sec, var, value)
+        if via_sector:
+            rec.count('model.declared_through_sector_objects')
+        add_exo('GOV', 'DEM_GOOD', val)
         for key, pth in case.get('param_paths', {}).items():
             sec, var = key.split('|')
-            mod.AddExogenous(sec, var, list(pth))     # a parameter given as a time-varying exogenous path
+            add_exo(sec, var, list(pth))     # a parameter given as a time-varying exogenous path
         for key, v in case['ics'].items():
             sec, var = key.split('|')
-            mod.AddInitialCondition(sec, var, v)
+            add_ic(sec, var, v)
         if case['ic_aftertax'] is not None:
-            mod.AddInitialCondition('HH', 'AfterTax', case['ic_aftertax'])
+            add_ic('HH', 'AfterTax', case['ic_aftertax'])
         mod.EquationSolver.MaxIterations = 2000
         if hs == 'after':
             mod.MaxTime = T
